@@ -1153,6 +1153,8 @@ theorem run_total_unsigned (t : Ty) (hu : t.signed = false) (p : List Instr) (s 
       · obtain ⟨c, hc⟩ := hcenter s.a
         exact ⟨_, by rw [hc]; rfl⟩
       · split <;> exact ⟨_, rfl⟩
+      · obtain ⟨r, hr⟩ := intersection_total t s.a s.a
+        exact ⟨_, by rw [hr]; rfl⟩
     obtain ⟨s1, h1⟩ := hstep
     obtain ⟨s', h'⟩ := ih s1
     exact ⟨s', by simp only [run, h1, bind, Except.bind]; exact h'⟩
